@@ -221,6 +221,20 @@ Section Munch.
       change (1 <= Nat.max 1 (n - 1) <= length s)%nat. pose proof (Nat.max_spec 1 (n - 1)). lia.
   Qed.
 
+  (* a token is either the event of the accepting state its bytes lead to, or raw *)
+  Lemma munch1_tok s t k :
+    munch1 s = Some (t, k) ->
+    (exists q, run (firstn k s) = Some q /\ accepting q = true /\ t = mk_tok q (firstn k s))
+    \/ t = TRaw (firstn k s).
+  Proof.
+    unfold Tokenizer.munch1. destruct (first_stop s) as [n|]; [|discriminate].
+    destruct (longest_acc s (if dead_at s n then n - 1 else n)) as [k'|] eqn:Hk.
+    - intros H; inversion H; subst. apply longest_acc_some in Hk. destruct Hk as (_ & Ha & _).
+      unfold Tokenizer.acc_at in Ha. unfold Tokenizer.tok_at.
+      destruct (run (firstn k s)) as [q|]; [|discriminate]. left. exists q. repeat split. exact Ha.
+    - intros [= <- <-]. right. reflexivity.
+  Qed.
+
   (* the first token only depends on the stream up to the first stop *)
   Lemma munch1_prefix y w r : munch1 y = Some r -> munch1 (y ++ w) = Some r.
   Proof.
@@ -450,6 +464,14 @@ Section Munch.
   (* no byte is lost, duplicated or reordered *)
   Theorem munch_concat s : concat (map span (fst (munch s))) ++ snd (munch s) = s.
   Proof. apply Munch_concat. apply munch_Munch. Qed.
+
+  Lemma Munch_items s ts p : Munch s ts p ->
+    Forall (fun t => (exists q, run (span t) = Some q /\ accepting q = true /\ t = mk_tok q (span t))
+                     \/ t = TRaw (span t)) ts.
+  Proof.
+    induction 1 as [s Hn|s t k ts p Hm _ IH]; constructor; [|exact IH].
+    destruct (munch1_bounds _ _ _ Hm) as [_ Hs]. rewrite Hs. apply (munch1_tok _ _ _ Hm).
+  Qed.
 
   (* every token consumes at least one byte *)
   Lemma Munch_spans_nonempty s ts p : Munch s ts p -> Forall (fun t => span t <> []) ts.
